@@ -1,4 +1,5 @@
 import JSL.Lib.StepSpec
+import JSL.Inv.EnvReach
 
 /-!
 # C04 — episodes end exactly when all work is delivered (environment-level part)
@@ -120,5 +121,33 @@ theorem c04_makespan_is_time (e : EnvState) (a : AgentAct) (out : StepOut)
     simp at h; subst h
     simp at ht ⊢
     simp [ht]
+
+
+/-! ## delivered means finished -/
+
+/-- **A job that lies in an output buffer has every operation done** – at every state the
+environment exposes in any episode.  So `terminated` (every job lies in an output buffer) is
+equivalent to "every operation of every job is done and every job lies in an output buffer". -/
+theorem c04_delivered_is_done {ec : EnvCfg} {s0 σ : State} (hst : Start orc inst s0)
+    (h : Exposed orc inst ec st s0 σ) (j : JobState) (hj : j ∈ σ.jobs) (hloc : j.loc ∈ outputIds inst) :
+    ∀ o ∈ j.ops, o.st = .done :=
+  (exposed_route hst h).delivered j hj hloc
+
+/-- `terminated` says exactly: all work is done and delivered -/
+theorem c04_terminated_iff_done_and_delivered {s0 : State} (hst : Start orc inst s0) (e : EnvState)
+    (hr : EnvReach orc inst ec st s0 e) (a : AgentAct) (out : StepOut)
+    (h : envStep orc inst ec st e a = .ok out) (hs : out.obsRes.success = true) :
+    out.env.terminated = true ↔
+      (∀ j ∈ out.env.res.state.jobs, j.loc ∈ outputIds inst ∧ ∀ o ∈ j.ops, o.st = .done) := by
+  rw [c04_terminated_iff_isDone e a out h hs]
+  have hx : Exposed orc inst ec st s0 out.env.res.state := Exposed.state (EnvReach.step hr h)
+  unfold isDone
+  rw [List.all_eq_true]
+  constructor
+  · intro hall j hj
+    have hl : j.loc ∈ outputIds inst := List.contains_iff_mem.mp (hall j hj)
+    exact ⟨hl, c04_delivered_is_done hst hx j hj hl⟩
+  · intro hall j hj
+    exact List.contains_iff_mem.mpr (hall j hj).1
 
 end JSL
